@@ -1,7 +1,8 @@
 (** C08 -- proofs about the TL1 reader [dec1] of Tl1Model.v:
     (A) fuel monotonicity, (B) consumption (the unread rest is a suffix of the input, for every
-    schema, dictionaries included), (C) termination for ranked schemas with an explicit fuel bound
-    and the divergence of the F1 schema, (D) boundedness of sequence lengths under the
+    schema, dictionaries included; strict for every call that is not a bare struct / tuple and
+    for bare structs certified by [dc]), (C) termination for ranked schemas with an explicit fuel
+    bound and the divergence of the F1 schema, (D) boundedness of sequence lengths under the
     length-sanity check and what is not bounded. *)
 From Coq Require Import ZArith Lia ZifyN ZifyNat ZifyBool.
 From TLV Require Import Prim.PrimModel Prim.PrimProofs Tl1.Tl1Model Tl1.Tl1Proofs Tl1.Tl1TotalModel.
@@ -138,47 +139,104 @@ Proof.
     split; [exact H1|]. unfold lenN. rewrite rev_length, H2. cbn [length]. lia.
 Qed.
 
-(** * (B) consumption: for EVERY schema (dictionaries included, no well-formedness needed) *)
-Theorem dec1_consumes san s : forall fuel t bare ps b v rest,
-  dec1 fuel san s t bare ps b = Some (Ok (v, rest)) -> SUF (negb (nc s t bare)) b rest.
+Lemma dc_ok_from_lookup s dc : forall l k i d,
+  dc_ok_from s dc k l = true -> nth_error l i = Some d -> nth (k + i) dc false = true -> dc_witness s dc d = true.
 Proof.
-  induction fuel as [|fuel IH]; intros t bare ps b v rest H; [discriminate|].
+  induction l as [|d0 l IH]; intros k i d H Hn Hdc; [destruct i; discriminate|].
+  cbn [dc_ok_from] in H. apply andb_true_iff in H as [H0 Hr].
+  destruct i as [|i]; cbn [nth_error] in Hn.
+  - injection Hn as <-. rewrite Nat.add_0_r in Hdc. now rewrite Hdc in H0.
+  - replace (k + S i)%nat with (S k + i)%nat in Hdc by lia. eapply IH; eauto.
+Qed.
+
+Lemma dc_ok_lookup s dc t d :
+  dc_ok s dc = true -> nth_error s t = Some d -> nth t dc false = true -> dc_witness s dc d = true.
+Proof. intros H Hn Hdc. exact (dc_ok_from_lookup s dc s 0%nat t d H Hn Hdc). Qed.
+
+Lemma dc_ok_from_nil s : forall l k, dc_ok_from s [] k l = true.
+Proof.
+  induction l as [|d l IH]; intros k; cbn [dc_ok_from]; [reflexivity|].
+  replace (nth k [] false) with false by (destruct k; reflexivity). cbn [andb]. apply IH.
+Qed.
+
+Lemma dc_ok_nil s : dc_ok s [] = true.
+Proof. apply dc_ok_from_nil. Qed.
+
+Lemma dcall_not_nc s dc t bare : nc s t bare = false -> dcall s dc t bare = true.
+Proof. intros H. unfold dcall. now rewrite H. Qed.
+
+Lemma dec_fields_suffix_strict s dc rec ps :
+  (forall t bare ps b v r, rec t bare ps b = Some (Ok (v, r)) -> SUF (dcall s dc t bare) b r) ->
+  forall fds acc b fs rest, existsb (def_consumes s dc) fds = true ->
+    dec_fields rec ps fds acc b = Some (Ok (fs, rest)) -> SUF true b rest.
+Proof.
+  intros Hrec.
+  assert (Hw : forall t bare ps b v r, rec t bare ps b = Some (Ok (v, r)) -> SUF false b r)
+    by (intros; eapply SUF_weaken; eauto).
+  induction fds as [|fd fds IH]; intros acc b fs rest He H; [discriminate|].
+  cbn [existsb] in He. cbn [dec_fields] in H.
+  destruct (def_consumes s dc fd) eqn:Ed.
+  - unfold def_consumes in Ed. unfold field_present in H.
+    destruct (f_mask fd); [discriminate|].
+    destruct (rec (f_ty fd) (f_bare fd) (eval_args ps acc (f_args fd)) b) as [[[v b']| |]|] eqn:Er; try discriminate.
+    pose proof (Hrec _ _ _ _ _ _ Er) as H1. rewrite Ed in H1.
+    eapply SUF_true_l; [exact H1|]. eapply dec_fields_suffix; eauto.
+  - cbn [orb] in He. destruct (field_present ps acc fd).
+    + destruct (rec (f_ty fd) (f_bare fd) (eval_args ps acc (f_args fd)) b) as [[[v b']| |]|] eqn:Er; try discriminate.
+      exact (SUF_trans false true _ _ _ (Hw _ _ _ _ _ _ Er) (IH _ _ _ _ He H)).
+    + eapply IH; eauto.
+Qed.
+
+(** * (B) consumption: for EVERY schema (dictionaries included, no well-formedness needed) *)
+Theorem dec1_consumes san s dc : dc_ok s dc = true -> forall fuel t bare ps b v rest,
+  dec1 fuel san s t bare ps b = Some (Ok (v, rest)) -> SUF (dcall s dc t bare) b rest.
+Proof.
+  intros Hdc. induction fuel as [|fuel IH]; intros t bare ps b v rest H; [discriminate|].
   assert (IHw : forall t bare ps b v r, dec1 fuel san s t bare ps b = Some (Ok (v, r)) -> SUF false b r)
     by (intros; eapply SUF_weaken; eauto).
-  cbn [dec1] in H. unfold nc.
+  cbn [dec1] in H.
   destruct (nth_error s t) as [d|] eqn:Et; [|discriminate].
   destruct d as [p|tag fds|vars|k ef|kp ef].
-  - injection H as H. cbn [negb]. eapply dec_prim_suffix; eauto.
+  - injection H as H. rewrite dcall_not_nc by (unfold nc; now rewrite Et). eapply dec_prim_suffix; eauto.
   - destruct bare.
     + destruct (dec_fields _ ps fds [] b) as [[[fs r]| |]|] eqn:Ed; try discriminate.
-      injection H as _ <-. cbn [negb]. eapply dec_fields_suffix; eauto.
+      injection H as _ <-. unfold dcall. replace (nc s t true) with true by (unfold nc; now rewrite Et).
+      cbn [negb orb]. destruct (nth t dc false) eqn:Edc.
+      * pose proof (dc_ok_lookup s dc t _ Hdc Et Edc) as Hw. cbn [dc_witness] in Hw.
+        eapply (dec_fields_suffix_strict s dc); eauto.
+      * eapply dec_fields_suffix; eauto.
     + destruct (nat_r b) as [[tg b']| |] eqn:En; try discriminate.
       destruct (tg =? tag); [|discriminate].
       destruct (dec_fields _ ps fds [] b') as [[[fs r]| |]|] eqn:Ed; try discriminate.
-      injection H as _ <-. cbn [negb].
+      injection H as _ <-. rewrite dcall_not_nc by (unfold nc; now rewrite Et).
       eapply SUF_true_l; [eapply nat_r_suffix; eauto|eapply dec_fields_suffix; eauto].
   - destruct bare; [discriminate|].
     destruct (nat_r b) as [[tg b']| |] eqn:En; try discriminate.
     destruct (find_variant s vars tg 0) as [[idx fds]|]; [|discriminate].
     destruct (dec_fields _ ps fds [] b') as [[[fs r]| |]|] eqn:Ed; try discriminate.
-    injection H as _ <-. cbn [negb].
+    injection H as _ <-. rewrite dcall_not_nc by (unfold nc; now rewrite Et).
     eapply SUF_true_l; [eapply nat_r_suffix; eauto|eapply dec_fields_suffix; eauto].
   - destruct bare; [|discriminate]. cbn [negb] in H.
-    assert (Hel : forall n b', 
+    assert (Hel : forall n b',
       match dec_elems (dec1 fuel san s (f_ty ef) (f_bare ef) (eval_args ps [] (f_args ef))) n b' with
       | Some (Ok (es, r)) => Some (Ok (VArr es, r)) | Some Eof => Some Eof | Some Reject => Some Reject | None => None
       end = Some (Ok (v, rest)) -> SUF false b' rest).
     { intros n b' Hd. destruct (dec_elems _ n b') as [[[es r]| |]|] eqn:Ed; try discriminate.
       injection Hd as _ <-. eapply (dec_elems_suffix _ (fun b0 v0 r0 => IHw _ _ _ b0 v0 r0)); eauto. }
+    assert (Htup : k <> AVector -> dcall s dc t true = false).
+    { intros Hk. unfold dcall. replace (nc s t true) with true by (unfold nc; rewrite Et; destruct k; congruence).
+      cbn [negb orb]. destruct (nth t dc false) eqn:Edc; [|reflexivity].
+      pose proof (dc_ok_lookup s dc t _ Hdc Et Edc) as Hw. discriminate. }
     destruct k as [| |c].
-    + destruct (read_count san b) as [[n b']| |] eqn:Ec; try discriminate. cbn [negb].
+    + destruct (read_count san b) as [[n b']| |] eqn:Ec; try discriminate.
+      rewrite dcall_not_nc by (unfold nc; now rewrite Et).
       eapply SUF_true_l; [eapply read_count_suffix; eauto|eapply Hel; eauto].
-    + destruct (san && _); [discriminate|]. cbn [negb]. eapply Hel; eauto.
-    + cbn [negb]. eapply Hel; eauto.
+    + destruct (san && _); [discriminate|]. rewrite Htup by discriminate. eapply Hel; eauto.
+    + rewrite Htup by discriminate. eapply Hel; eauto.
   - destruct bare; [|discriminate]. cbn [negb] in H.
     destruct (read_count san b) as [[n b']| |] eqn:Ec; try discriminate.
     destruct (dec_elems _ n b') as [[[es r]| |]|] eqn:Ed; try discriminate.
-    injection H as _ <-. cbn [negb].
+    injection H as _ <-. rewrite dcall_not_nc by (unfold nc; now rewrite Et).
     eapply SUF_true_l; [eapply read_count_suffix; eauto|].
     eapply (dec_elems_suffix _ (fun b0 v0 r0 => IHw _ _ _ b0 v0 r0)); eauto.
 Qed.
@@ -302,9 +360,10 @@ Qed.
 
 Section FieldsTotal.
   Variable s : schema.
+  Variable dc : list bool.
   Variable rec : nat -> bool -> list N -> bytes -> dres.
   Variable L : nat.
-  Hypothesis Hsuf : forall t bare ps b v r, rec t bare ps b = Some (Ok (v, r)) -> SUF (negb (nc s t bare)) b r.
+  Hypothesis Hsuf : forall t bare ps b v r, rec t bare ps b = Some (Ok (v, r)) -> SUF (dcall s dc t bare) b r.
   Hypothesis Hshort : forall t bare ps b, (length b < L)%nat -> rec t bare ps b <> None.
 
   (** calls that can happen with [L] bytes left, i.e. with nothing consumed since the entry *)
@@ -312,7 +371,7 @@ Section FieldsTotal.
     match fds with
     | [] => True
     | fd :: r => (forall ps b, length b = L -> rec (f_ty fd) (f_bare fd) ps b <> None)
-                 /\ (def_consumes s fd = false -> ZOK r)
+                 /\ (def_consumes s dc fd = false -> ZOK r)
     end.
 
   Lemma dec_fields_total ps : forall fds acc b,
@@ -330,7 +389,7 @@ Section FieldsTotal.
       apply IH; [lia|]. intros E.
       assert (Eb : length b = L) by lia. destruct (Hz Eb) as [_ H2]. apply H2.
       unfold def_consumes. destruct (f_mask fd); [reflexivity|].
-      destruct (negb (nc s (f_ty fd) (f_bare fd))) eqn:En; [|reflexivity].
+      destruct (dcall s dc (f_ty fd) (f_bare fd)) eqn:En; [|reflexivity].
       specialize (Hl2 eq_refl). lia.
     - apply IH; [exact Hle|]. intros E. destruct (Hz E) as [_ H2]. apply H2.
       unfold def_consumes. unfold field_present in Ep. destruct (f_mask fd); [reflexivity|discriminate].
@@ -360,8 +419,8 @@ Proof.
   revert H. destruct (nat_iter _ _ _) as [[[acc b']| |]|]; intros H; try discriminate; congruence.
 Qed.
 
-Lemma ranked_from_lookup s rank : forall l k i d,
-  ranked_from s rank k l = true -> nth_error l i = Some d -> tydef_ranked s rank (k + i) d = true.
+Lemma ranked_from_lookup s dc rank : forall l k i d,
+  ranked_from s dc rank k l = true -> nth_error l i = Some d -> tydef_ranked s dc rank (k + i) d = true.
 Proof.
   induction l as [|d0 l IH]; intros k i d H Hn; [destruct i; discriminate|].
   cbn [ranked_from] in H. apply andb_true_iff in H as [H0 Hr].
@@ -370,13 +429,13 @@ Proof.
   - replace (k + S i)%nat with (S k + i)%nat by lia. eapply IH; eauto.
 Qed.
 
-Lemma ranked_lookup s rank t d : ranked s rank = true -> nth_error s t = Some d -> tydef_ranked s rank t d = true.
-Proof. intros H Hn. exact (ranked_from_lookup s rank s 0%nat t d H Hn). Qed.
+Lemma ranked_lookup s dc rank t d : ranked s dc rank = true -> nth_error s t = Some d -> tydef_ranked s dc rank t d = true.
+Proof. intros H Hn. apply andb_true_iff in H as [_ H]. exact (ranked_from_lookup s dc rank s 0%nat t d H Hn). Qed.
 
-Lemma ZOK_of_ranked s rank (rec : nat -> bool -> list N -> bytes -> dres) t bare b :
+Lemma ZOK_of_ranked s dc rank (rec : nat -> bool -> list N -> bytes -> dres) t bare b :
   nc s t bare = true ->
   (forall t' bare' ps' b', (phi s rank t' bare' b' < phi s rank t bare b)%nat -> rec t' bare' ps' b' <> None) ->
-  forall fds, fields_ranked s rank (rk rank t) fds = true -> ZOK s rec (length b) fds.
+  forall fds, fields_ranked s dc rank (rk rank t) fds = true -> ZOK s dc rec (length b) fds.
 Proof.
   intros Hnc Hrec. induction fds as [|fd fds IH]; intros H; cbn [ZOK]; [exact I|].
   cbn [fields_ranked] in H. apply andb_true_iff in H as [Hc Hr]. split.
@@ -384,7 +443,7 @@ Proof.
   - intros Ed. rewrite Ed in Hr. now apply IH.
 Qed.
 
-Theorem dec1_total_phi san s rank : ranked s rank = true ->
+Theorem dec1_total_phi san s dc rank : ranked s dc rank = true ->
   forall fuel t bare ps b, (phi s rank t bare b < fuel)%nat -> dec1 fuel san s t bare ps b <> None.
 Proof.
   intros Hr. induction fuel as [|fuel IH]; intros t bare ps b Hphi; [lia|].
@@ -393,24 +452,25 @@ Proof.
     by (intros; apply IH; lia).
   assert (IHshort : forall t' bare' ps' b', (length b' < length b)%nat -> dec1 fuel san s t' bare' ps' b' <> None)
     by (intros; apply IHphi; now apply phi_lt_shorter).
-  pose proof (dec1_consumes san s fuel) as Hsuf.
+  assert (Hdc : dc_ok s dc = true) by (now apply andb_true_iff in Hr as [? _]).
+  pose proof (dec1_consumes san s dc Hdc fuel) as Hsuf.
   assert (Hsufw : forall t bare ps b v r, dec1 fuel san s t bare ps b = Some (Ok (v, r)) -> SUF false b r)
     by (intros; eapply SUF_weaken; eauto).
   (* fields read after at least one byte was consumed *)
   assert (Hafter : forall fds b', (length b' < length b)%nat -> dec_fields (dec1 fuel san s) ps fds [] b' <> None).
-  { intros fds b' Hl. apply (dec_fields_total s _ (length b) Hsuf IHshort); lia. }
+  { intros fds b' Hl. apply (dec_fields_total s dc _ (length b) Hsuf IHshort); lia. }
   assert (Helafter : forall ef n b', (length b' < length b)%nat ->
             dec_elems (dec1 fuel san s (f_ty ef) (f_bare ef) (eval_args ps [] (f_args ef))) n b' <> None).
   { intros ef n b' Hl. apply (dec_elems_total _ (length b') (fun b0 v0 r0 => Hsufw _ _ _ b0 v0 r0)); [|lia].
     intros b0 Hb0. apply IHshort. lia. }
   cbn [dec1]. destruct (nth_error s t) as [d|] eqn:Et; [|discriminate].
-  pose proof (ranked_lookup s rank t d Hr Et) as Hd.
+  pose proof (ranked_lookup s dc rank t d Hr Et) as Hd.
   destruct d as [p|tag fds|vars|k ef|kp ef].
   - discriminate.
   - cbn [tydef_ranked] in Hd. destruct bare.
     + assert (Hnc : nc s t true = true) by (unfold nc; now rewrite Et).
-      pose proof (dec_fields_total s _ (length b) Hsuf IHshort ps fds [] b (le_n _)
-                   (fun _ => ZOK_of_ranked s rank _ t true b Hnc IHphi fds Hd)) as Hf.
+      pose proof (dec_fields_total s dc _ (length b) Hsuf IHshort ps fds [] b (le_n _)
+                   (fun _ => ZOK_of_ranked s dc rank _ t true b Hnc IHphi fds Hd)) as Hf.
       destruct (dec_fields _ ps fds [] b) as [[[fs r]| |]|]; try discriminate; congruence.
     + destruct (nat_r b) as [[tg b']| |] eqn:En; try discriminate.
       destruct (tg =? tag); [|discriminate].
@@ -447,16 +507,16 @@ Proof.
     destruct (dec_elems _ n b') as [[[es r]| |]|]; try discriminate; congruence.
 Qed.
 
-Theorem dec1_total_ranked san s rank : ranked s rank = true ->
+Theorem dec1_total_ranked san s dc rank : ranked s dc rank = true ->
   forall t bare ps b fuel, (fuel_bound rank b <= fuel)%nat -> dec1 fuel san s t bare ps b <> None.
 Proof.
-  intros Hr t bare ps b fuel Hf. apply (dec1_total_phi san s rank Hr).
+  intros Hr t bare ps b fuel Hf. apply (dec1_total_phi san s dc rank Hr).
   pose proof (phi_lt_bound s rank t bare b). lia.
 Qed.
 
 Theorem dec1_total_productive san s : productive s = true ->
   forall t bare ps b, dec1 (fuel_bound (auto_rank s) b) san s t bare ps b <> None.
-Proof. intros Hp t bare ps b. apply (dec1_total_ranked san s (auto_rank s) Hp). lia. Qed.
+Proof. intros Hp t bare ps b. apply (dec1_total_ranked san s (auto_dc s) (auto_rank s) Hp). lia. Qed.
 (** * F1: a well-formed schema (accepted by the kernel) whose reader diverges *)
 Lemma dec1_struct_bare fuel san s t tag fds ps b :
   nth_error s t = Some (TStruct tag fds) ->
@@ -498,10 +558,10 @@ Proof. reflexivity. Qed.
 Theorem f1_not_productive : productive f1_schema = false.
 Proof. vm_compute. reflexivity. Qed.
 
-Theorem f1_no_ranking : forall rank, ranked f1_schema rank = false.
+Theorem f1_no_ranking : forall dc rank, ranked f1_schema dc rank = false.
 Proof.
-  intros rank. destruct (ranked f1_schema rank) eqn:E; [exfalso|reflexivity].
-  pose proof (ranked_lookup _ _ 3%nat _ E eq_refl) as H.
+  intros dc rank. destruct (ranked f1_schema dc rank) eqn:E; [exfalso|reflexivity].
+  pose proof (ranked_lookup _ _ _ 3%nat _ E eq_refl) as H.
   cbn [tydef_ranked fields_ranked] in H. apply andb_true_iff in H as [H _].
   unfold child_ok in H. cbn [f_ty f_bare] in H. change (nc f1_schema 3 true) with true in H.
   cbv iota in H. apply Nat.ltb_lt in H. lia.
@@ -586,7 +646,7 @@ Theorem dec1_seq_length_bounded s fuel t bare ps b v rest :
   end.
 Proof.
   intros H. destruct fuel as [|fuel]; [discriminate|].
-  pose proof (dec1_consumes true s fuel) as Hsuf.
+  pose proof (dec1_consumes true s [] (dc_ok_nil s) fuel) as Hsuf.
   assert (Hsufw : forall t bare ps b v r, dec1 fuel true s t bare ps b = Some (Ok (v, r)) -> SUF false b r)
     by (intros; eapply SUF_weaken; eauto).
   cbn [dec1] in H.
